@@ -357,6 +357,40 @@ impl<const K: usize, const B: usize> Txt<K, B> {
     /// Constant prefix "é\ncArds" followed by exactly K symbolic ASCII characters: every byte position is a
     /// constant, only the contents are symbolic (keeps offset arithmetic out of the solver).
     pub(crate) fn ascii_after_cards() -> Self {
+        Self::ascii_after_cards_fixed(&[])
+    }
+
+    /// Constant prefix "é\ncArds4" (9 bytes, 8 chars), then constant leading characters and symbolic ASCII ones.
+    pub(crate) fn ascii_after_cards4_fixed(fixed: &[char]) -> Self {
+        let mut t = Self::ascii_after_cards_fixed(&[]);
+        // shift the symbolic part by one byte and put the '4' in front of it
+        let mut buf = [0u8; B];
+        buf[0] = 0xc3;
+        buf[1] = 0xa9;
+        buf[2] = b'\n';
+        buf[3] = b'c';
+        buf[4] = b'A';
+        buf[5] = b'r';
+        buf[6] = b'd';
+        buf[7] = b's';
+        buf[8] = b'4';
+        let mut i = 0;
+        while i < K {
+            let b: u8 = if i < fixed.len() { fixed[i] as u8 } else { t.buf[8 + i] };
+            buf[9 + i] = b;
+            t.ch[i] = b as char;
+            t.start[i] = 9 + i;
+            i += 1;
+        }
+        t.buf = buf;
+        t.len = 9 + K;
+        t.pre_b = 9;
+        t.pre_c = 8;
+        t
+    }
+
+    /// As `ascii_after_cards`, with constant leading characters (ASCII) of the symbolic part.
+    pub(crate) fn ascii_after_cards_fixed(fixed: &[char]) -> Self {
         let mut buf = [0u8; B];
         buf[0] = 0xc3;
         buf[1] = 0xa9;
@@ -370,7 +404,7 @@ impl<const K: usize, const B: usize> Txt<K, B> {
         let mut start = [0usize; K];
         let mut i = 0;
         while i < K {
-            let b: u8 = kani::any();
+            let b: u8 = if i < fixed.len() { fixed[i] as u8 } else { kani::any() };
             kani::assume(b < 0x80);
             buf[8 + i] = b;
             ch[i] = b as char;
